@@ -22,7 +22,7 @@ META = {
                    "strict sub-term of itself. R04.rec: the only call-graph cycle is the walker's self-recursion on strict sub-terms.",
     "assumptions": ["dependencies do not panic on valid arguments (not analysed)", "stack depth is bounded by the property's nesting bound (<= 64)",
                     "overflow checks are analysed as enabled: every arithmetic site is enumerated, which covers builds without them"],
-    "floors": {"R04.sites": 80, "R04.loops": 40, "R04.rec": 1, "R04.stack": 1},
+    "floors": {"R04.sites": 80, "R04.loops": 40, "R04.rec": 1, "R04.stack": 1, "R04.asread": 1},
 }
 
 PANIC_CALLS = ("::unwrap", "::expect", "::unwrap_unchecked")
@@ -311,6 +311,11 @@ def run(ctx, crate):
     obs.append(Ob("R04.stack", crate.name, "the recursive tree walk runs on the main thread's stack (no thread is spawned)", not spawns,
                   expected="no std::thread::spawn / scope in the crate", found=spawns or "none",
                   example="32 nested parentheses analysed on a worker thread with the default 2 MiB stack"))
+    # "a file the parser accepts" is the file on disk: a walker that hands the parser a rewritten copy (line endings "normalised", characters dropped) can turn
+    # an accepted file into text the parser rejects, and the unwrap on the parse result aborts the run (C17's obligation on what the walks hand on)
+    from rules import depend
+    obs.append(depend.inherited(ctx, crate, "R04.asread", "analyze_dir x3", "the parser is given the file's content as read (C17's obligation on what the walks hand to the analysis)",
+                                "C17", lambda o: o.rule == "R17.asread", example="a file with bare carriage returns as line ends and a // comment inside a contract"))
     ctx.analysed.setdefault("C04", {})[crate.ctype] = {"reachable_bodies": len(reach), "panic_capable_sites": n_sites, "justifications_used": len(used_j), "justifications": len(J)}
     for i, e in enumerate(J):
         if i not in used_j:
